@@ -22,9 +22,9 @@ import (
 	"verifharness/internal/hx"
 )
 
-// While fuzzing the guard withholds everything above 4 MiB: an allocation of 2..4 MiB is as
+// While fuzzing the guard withholds everything above 2 MiB: an allocation of 2 MiB is as
 // good a witness of "out of proportion" as 1 GiB and keeps executions cheap.
-const fuzzLo = uint64(1) << 22
+const fuzzLo = uint64(1) << 21
 
 const fuzzMaxInput = 64 << 10
 
@@ -105,22 +105,40 @@ func fuzzOracle(t *testing.T, subs []string, in []byte) {
 	}
 }
 
-// hostileSeeds: one element of every type with every hostile size, header only and with a body.
-func hostileSeeds(d *domain) [][]byte {
+// fuzzSeeds: the seed corpus of fuzz target idx = its fixtures + one element of every type with
+// every hostile size (with its natural body; header only for a few sizes), behind the minimal
+// prefix the entry point needs.
+func fuzzSeeds(idx int) ([][]byte, error) {
+	ft := fuzzTargets[idx]
+	fm, err := fixtures()
+	if err != nil {
+		return nil, err
+	}
 	var out [][]byte
+	for _, n := range ft.Fixt {
+		out = append(out, fm[n].Data)
+	}
+	d := targetDomain(ft.Subs[0])
+	prefix := []byte(nil)
+	if ft.Subs[0] == "archive" || ft.Subs[0] == "untar" {
+		prefix, _, _ = encode(d, Elem{T: "CaFormatEntry", SK: "exact", Dir: true})
+	}
 	names := formatTypeNames
 	if d == domProto {
 		names = protoTypeNames
 	}
 	for _, typ := range names {
 		for _, sk := range sizeKinds {
-			for _, bd := range []int{-4096, 0} {
+			for _, bd := range []int{0, -4096} {
+				if bd != 0 && !(sk == "0" || sk == "16" || sk == "2^21" || sk == "2^48" || sk == "max") {
+					continue
+				}
 				b, _, _ := encode(d, Elem{T: typ, TV: 0x1122334455667788, N: 5, SK: sk, BD: bd, Seed: 3})
-				out = append(out, b)
+				out = append(out, append(append([]byte(nil), prefix...), b...))
 			}
 		}
 	}
-	return out
+	return out, nil
 }
 
 func fuzzBody(f *testing.F, idx int) {
@@ -128,20 +146,12 @@ func fuzzBody(f *testing.F, idx int) {
 	if !fuzzing() {
 		f.Skip("seed corpus is covered by TestEnum; native fuzzing runs from TestFuzzCampaign (thorough tier)")
 	}
-	fm, err := fixtures()
+	seeds, err := fuzzSeeds(idx)
 	if err != nil {
 		f.Fatal(err)
 	}
-	d := targetDomain(ft.Subs[0])
-	for _, n := range ft.Fixt {
-		f.Add(fm[n].Data)
-	}
-	prefix := []byte(nil)
-	if ft.Subs[0] == "archive" || ft.Subs[0] == "untar" {
-		prefix, _, _ = encode(d, Elem{T: "CaFormatEntry", SK: "exact", Dir: true})
-	}
-	for _, s := range hostileSeeds(d) {
-		f.Add(append(append([]byte(nil), prefix...), s...))
+	for _, s := range seeds {
+		f.Add(s)
 	}
 	f.Fuzz(func(t *testing.T, in []byte) { fuzzOracle(t, ft.Subs, in) })
 }
@@ -194,6 +204,7 @@ func fuzzBinary(t *testing.T, scratch string) (string, bool) {
 var (
 	reExecs = regexp.MustCompile(`execs: (\d+)`)
 	reNew   = regexp.MustCompile(`new interesting: (\d+) \(total: (\d+)\)`)
+	reSeed  = regexp.MustCompile(`seed corpus entry: Fuzz\w+/seed#(\d+)`)
 )
 
 // TestFuzzCampaign runs every fuzz target for a fixed time (thorough tier, shard 0) by
@@ -221,7 +232,7 @@ func TestFuzzCampaign(t *testing.T) {
 	if v, err := strconv.Atoi(os.Getenv("C19_FUZZ_WORKERS")); err == nil && v > 0 {
 		workers = v
 	}
-	for _, ft := range fuzzTargets {
+	for fi, ft := range fuzzTargets {
 		if only != "" && only != ft.Name {
 			continue
 		}
@@ -231,7 +242,7 @@ func TestFuzzCampaign(t *testing.T) {
 			"-test.fuzzcachedir="+filepath.Join(scratch, "cache"), fmt.Sprintf("-test.parallel=%d", workers),
 			"-test.fuzzminimizetime=20s", fmt.Sprintf("-test.timeout=%ds", secs+180))
 		cmd.Dir = cwd
-		cmd.Env = append(os.Environ(), "VERIF_RUNDIR="+filepath.Join(scratch, "rundir"), "VERIF_SHARD=0", "C19_FUZZ_STATS="+stats)
+		cmd.Env = append(os.Environ(), "GOMAXPROCS=4", "VERIF_RUNDIR="+filepath.Join(scratch, "rundir"), "VERIF_SHARD=0", "C19_FUZZ_STATS="+stats)
 		var buf bytes.Buffer
 		cmd.Stdout, cmd.Stderr = &buf, &buf
 		start := time.Now()
@@ -248,9 +259,14 @@ func TestFuzzCampaign(t *testing.T) {
 		hx.Note("fuzz_execs_"+ft.Name, execs)
 		hx.Note("fuzz_corpus_"+ft.Name, interesting)
 		t.Logf("%s: %d execs, corpus %d, %.0fs, exit error: %v", ft.Name, execs, interesting, time.Since(start).Seconds(), err)
-		crashers, _ := filepath.Glob(filepath.Join(cwd, "testdata", "fuzz", ft.Name, "*"))
-		converted := 0
-		for _, cf := range crashers {
+		// failing inputs: crasher files written by the fuzzer, or seed corpus entries named in the output
+		type crasher struct {
+			name string
+			raw  []byte
+		}
+		var found []crasher
+		files, _ := filepath.Glob(filepath.Join(cwd, "testdata", "fuzz", ft.Name, "*"))
+		for _, cf := range files {
 			b, rerr := os.ReadFile(cf)
 			if rerr != nil {
 				continue
@@ -260,6 +276,18 @@ func TestFuzzCampaign(t *testing.T) {
 				t.Errorf("%s: cannot parse crasher %s: %v", ft.Name, cf, perr)
 				continue
 			}
+			found = append(found, crasher{filepath.Base(cf), raw})
+		}
+		if seeds, serr := fuzzSeeds(fi); serr == nil {
+			for _, m := range reSeed.FindAllStringSubmatch(out, -1) {
+				if n, _ := strconv.Atoi(m[1]); n < len(seeds) {
+					found = append(found, crasher{"seed#" + m[1], seeds[n]})
+				}
+			}
+		}
+		converted := 0
+		for _, cr := range found {
+			raw, cf := cr.raw, cr.name
 			converted++
 			held := true
 			for _, sub := range ft.Subs {
@@ -270,14 +298,14 @@ func TestFuzzCampaign(t *testing.T) {
 			if held {
 				// the fuzz worker saw a failure that the in-process oracle does not reproduce
 				// (e.g. the worker died or timed out): still a finding of the campaign
-				t.Errorf("%s: crasher %s (%d bytes, hex %x) did not reproduce in-process; fuzzer output:\n%s", ft.Name, filepath.Base(cf), len(raw), trunc(raw, 64), tail(out, 3000))
+				t.Errorf("%s: crasher %s (%d bytes, hex %x) did not reproduce in-process; fuzzer output:\n%s", ft.Name, cf, len(raw), trunc(raw, 64), tail(out, 3000))
 			}
 		}
 		if err != nil && converted == 0 {
 			fmt.Println("SELFTEST-FAILURE: fuzz run of", ft.Name, "failed without a crasher file")
 			t.Fatalf("%s: fuzz process failed without a crasher: %v\n%s", ft.Name, err, tail(out, 4000))
 		}
-		if execs == 0 {
+		if execs == 0 && converted == 0 {
 			fmt.Println("SELFTEST-FAILURE: fuzz run of", ft.Name, "executed nothing")
 			t.Fatalf("%s: no executions reported:\n%s", ft.Name, tail(out, 4000))
 		}
